@@ -39,6 +39,18 @@ def wrapped(text):
     return '%s%s' % (addStartTag(text, INVISIBLE_ROOT_TAG_START), INVISIBLE_ROOT_TAG_END)
 
 
+def non_ascii_names(text):
+    t = stripped(text)
+    for src in (t, wrapped(t)):
+        for tok in parsing.tokenize(src):
+            if tok[0] in ('start', 'startend'):
+                if not tok[1].isascii() or any(not a[0].isascii() for a in tok[2]):
+                    return True
+            elif tok[0] == 'end' and not tok[1].isascii():
+                return True
+    return False
+
+
 def in_domain(text):
     low = text.lower()
     return WRAPPER not in low and '<![' not in text
@@ -285,7 +297,7 @@ class Check(PropCheck):
         return self._call(d)[1]
 
     def compare(self, model_out, impl_out, d):
-        if d['cls'] not in ('plain', 'indexed') or impl_out in ('(impl-timeout)', '(skipped-after-timeouts)'):
+        if d['cls'] not in ('plain', 'indexed') or impl_out in ('(impl-timeout)', '(skipped-after-timeouts)', '(skipped-nonascii-names)'):
             return None
         return PropCheck.compare(self, model_out, impl_out, d)
 
@@ -382,7 +394,15 @@ def _worker_main(conn):
             payload = chk.encode_inproc(d)
         except Exception:
             payload = '(() ())'
-        conn.send((safe_impl(chk, d), safe_oracle(chk, d), payload))
+        impl_out = safe_impl(chk, d)
+        try:
+            if d['cls'] in ('plain', 'indexed') and non_ascii_names(d['text']):
+                # the model's str.isalpha / isalnum / lower are ASCII-exact (DESIGN: Unicode restriction): element and
+                # attribute names outside ASCII are not compared (the oracle still runs)
+                impl_out = '(skipped-nonascii-names)'
+        except Exception:
+            pass
+        conn.send((impl_out, safe_oracle(chk, d), payload))
 
 
 class _TextFile(io.TextIOWrapper):
